@@ -23,10 +23,12 @@ def gen_scenario(rng, small=False):
             sched.append({"leaf": {"name": next(names), "clients": rng.choice([1, 1, 2, 3, 4]), "iterations": rng.randint(1, 3)}})
         else:
             mode = rng.choice(["none", "named", "named", "any"])
-            n = rng.randint(1, 3)
+            # wide elements: many one-client tasks over few clients, i.e. several task columns per client with an uneven last column
+            wide = rng.random() < 0.2
+            n = rng.randint(4, 6) if wide else rng.randint(1, 3)
             tasks = []
             for i in range(n):
-                tasks.append({"name": next(names), "clients": rng.choice([1, 1, 2, 3]), "iterations": rng.randint(1, 4)})
+                tasks.append({"name": next(names), "clients": rng.choice([1, 1, 1, 2] if wide else [1, 1, 2, 3]), "iterations": rng.randint(1, 4)})
             if mode == "named":
                 k = rng.randrange(n)
                 tasks[k]["cp"] = True
@@ -43,7 +45,9 @@ def gen_scenario(rng, small=False):
                         t.pop("iterations")
             total = sum(t["clients"] for t in tasks)
             ov = None
-            if rng.random() < 0.45:
+            if wide and rng.random() < 0.8:
+                ov = rng.choice([2, 2, 3])
+            elif rng.random() < 0.45:
                 ov = rng.choice([1, 2, max(1, total - 1), total + 1, total + 2])
             if ov is not None and ov < total:
                 # over-committed: a client runs several tasks back to back, so an eternal task in front of the completing one
@@ -57,6 +61,23 @@ def gen_scenario(rng, small=False):
         for t in ([e["leaf"]] if "leaf" in e else e["par"]):
             if t.get("iterations") and not t.get("eternal") and rng.random() < 0.15:
                 t["iterations"] = None
+    # time-based tasks (outside completed-by elements): a measurement period, sometimes a warm-up period, sometimes a ramp-up during
+    # which the clients start one after the other — also in the shape --test-mode leaves behind (warm-up cut to 0, period capped, the
+    # ramp-up untouched, so that a late client's ramp-up wait may exceed the whole period)
+    for e in sched:
+        if "par" in e and any(t.get("cp") or t.get("acp") for t in e["par"]):
+            continue
+        for t in ([e["leaf"]] if "leaf" in e else e["par"]):
+            if not t.get("eternal") and rng.random() < 0.2:
+                t["iterations"] = None
+                t["time_period"] = rng.choice([0.5, 1.0, 2.0, 3.0])
+                r = rng.random()
+                if r < 0.3:
+                    t["warmup_time_period"] = rng.choice([0.5, 1.0])
+                if rng.random() < 0.5:
+                    t["ramp_up_time_period"] = rng.choice([1.0, 2.0, 6.0])
+                    if "warmup_time_period" not in t or rng.random() < 0.5:
+                        t["warmup_time_period"] = 0  # test mode's clipping
     svc = {}
     for e in sched:
         for t in ([e["leaf"]] if "leaf" in e else e["par"]):
@@ -243,7 +264,13 @@ def to_model_events(sim, scenario, cfg):
             w = int(e["actor"][1:])
             for what, kw in e["notes"]:
                 if what == "task-done":
-                    i = running[w].index([kw["client"], tidx[kw["task"]]])
+                    key = [kw["client"], tidx[kw["task"]]]
+                    if key not in running.get(w, []):
+                        # e.g. two columns of one worker executing at once: nothing the protocol model can express; the replay reports it
+                        # as a difference and the direct oracles below still judge the race
+                        events.append({"e": "UNMODELLED", "w": w, "what": f"a task finished that is not in the column worker {w} submitted last: {key}"})
+                        continue
+                    i = running[w].index(key)
                     events.append({"e": "taskDone", "w": w, "i": i, "out": {"toW": [], "toD": [], "toR": [], "armed": 0, "submitted": []}})
             if e["done"] and not e["failed"]:
                 events.append({"e": "execFinish", "w": w, "out": {"toW": [], "toD": [], "toR": [], "armed": 0, "submitted": []}})
@@ -264,8 +291,8 @@ def _jcol(cfg, w, m):
 
 def _iters(t):
     """requests per allocation of a task that ends by itself: its iteration count, 1 if it has no loop control at all; None = eternal"""
-    if t.get("eternal"):
-        return None
+    if t.get("eternal") or t.get("time_period"):
+        return None  # (a time-based task ends by itself, but after a number of requests this harness does not predict)
     return t.get("iterations") or 1
 
 
@@ -276,6 +303,7 @@ def budget(scenario):
             v = scenario["svc"].get(t["name"], 0.25)
             mx = max(v) if isinstance(v, list) else max(v.values()) if isinstance(v, dict) else v
             total += mx * ((t.get("iterations") or 1) + (t.get("warmup_iterations") or 0)) * 4
+            total += (t.get("time_period") or 0) + (t.get("warmup_time_period") or 0) + (t.get("ramp_up_time_period") or 0) + (mx if t.get("time_period") else 0)
     per_step = 12.0 + 3 * scenario.get("max_wakeup_delay", 0.0) + 6 * scenario.get("exec_start_delay", 0.0)
     return 50.0 + total * 3 + per_step * (len(scenario["schedule"]) + 2) * 3
 
@@ -361,6 +389,15 @@ def run(ctx, case):
                 want = n * _iters(t)
                 if reqs.get((ci, tname), 0) != want:
                     ctx.fail(shape + ":cut-short", f"client {ci} issued {reqs.get((ci, tname), 0)} requests of task {tname}, expected {want}", want, reqs.get((ci, tname), 0))
+        # a time-based task outside a completed-by element: every client allocated to it runs it, i.e. issues at least one request
+        # (the period is checked when an iteration is handed out, so a client that starts late still gets its first one)
+        for (ci, tname), n in alloc_count.items():
+            t = spec[tname]
+            e = sc["schedule"][elem_of[tname]]
+            has_cb = "par" in e and any(x.get("cp") or x.get("acp") for x in e["par"])
+            if t.get("time_period") and not has_cb and reqs.get((ci, tname), 0) < n:
+                ctx.fail(shape + ":allocated-client-issued-no-request", f"client {ci} is allocated to the time-based task {tname} {n} time(s) but issued "
+                         f"{reqs.get((ci, tname), 0)} request(s) of it", f">= {n}", reqs.get((ci, tname), 0))
         # completed-by: any — the element ends when the FIRST task to finish is done, so when it has ended at least one of its
         # task allocations has run to its natural end
         for ei, e in enumerate(sc["schedule"]):
